@@ -152,6 +152,32 @@ def c18_tasks(pid, tier, repo, seed, R):
     return tasks
 
 
+def buffer_tasks(pid, tier, repo, seed, R, whats=("flush", "init", "save", "load", "contexts")):
+    tasks = []
+    for c in concrete_classes(R):
+        if not R["classes"][c]["isa"]["BufferedCollection"]:
+            continue
+        for w in whats:
+            tasks.append(dict(kind="buffers", repo=repo, seed=seed, what=w, cname=c, props=[pid], threads=True,
+                              label=f"{pid}:buffer:{c}:{w}"))
+    cl = [c for c in concrete_classes(R) if R["classes"][c]["isa"]["BufferedCollection"]]
+    pick = cl if tier == "thorough" else [c for c in cl if c in ("BufferedJSONDict", "MemoryBufferedJSONList")]
+    sweeps = [(f"{c}:buffered-histories", "replay/buffer_replay.py", ["search", c] + ([] if tier == "thorough" else ["4000"]),
+               "all histories of <= 3 buffered operations over 2 objects on 2 files x context nestings x capacities "
+               "{large, 1, 0} x one outside write") for c in pick]
+    tasks.append(dict(kind="bounded", repo=repo, seed=seed, props=[pid], sweeps=sweeps, threads=True,
+                      label=f"{pid}:bounded:buffer-histories", timeout=2400))
+    return tasks
+
+
+def c17_tasks(pid, tier, repo, seed, R):
+    return def_tasks(pid, tier, repo, seed, R) + buffer_tasks(pid, tier, repo, seed, R, ("flush", "init", "load"))
+
+
+def c08_all(pid, tier, repo, seed, R):
+    return c08_tasks(pid, tier, repo, seed, R) + [t for t in buffer_tasks(pid, tier, repo, seed, R, ("flush",)) if t["kind"] == "buffers"]
+
+
 API_PROPS["C16"] = dict(methods="all", title="values are copied in and out")
 API_PROPS["C11"] = dict(methods="mutator", title="forbidden data never gets in")
 def c02_tasks(pid, tier, repo, seed, R):
@@ -172,6 +198,9 @@ EXTRA["C16"] = c16_tasks
 EXTRA["C18"] = c18_tasks
 EXTRA["C11"] = c11_tasks
 EXTRA["C12"] = value_tasks
-EXTRA["C08"] = c08_tasks
+EXTRA["C08"] = c08_all
+for _p in ("C05", "C06", "C07", "C15"):
+    EXTRA[_p] = buffer_tasks
+EXTRA["C17"] = c17_tasks
 EXTRA["C19"] = c19_tasks
 LEVEL = {}
